@@ -3,11 +3,11 @@ CONSTANT Roles <- R2
 CONSTANT Chans <- ChABS
 CONSTANT Docs <- D2
 CONSTANT ChanMenu <- CMS
-CONSTANT RoleMenu <- RM4
+CONSTANT RoleMenu <- RM3
 CONSTANT GrantMenu <- GM8
 CONSTANT MaxSteps = 12
 CONSTANT SplitWrite = FALSE
 CONSTANT SplitLoad = FALSE
 SPECIFICATION Spec
-INVARIANT BehaviourExport
+INVARIANT SimExport
 CHECK_DEADLOCK FALSE
